@@ -197,10 +197,10 @@ def std_entropy_part(ctx, n):
     sessions, tabs = [], {}
     for sid in range(1, n + 1):
         K = ctx.rng.randint(2, 4)
-        counts = [ctx.rng.randint(1, 4) for _ in range(K)]
+        counts = [ctx.rng.randint(1, 4 if sid % 3 else 60) for _ in range(K)]
         if sum(counts) < 4 or max(counts) < 2:
             counts[0] += 3
-        sessions.append(dict(sid=sid, kind="var", n=counts, m=[]))
+        sessions.append(dict(sid=sid, kind="bigvar", n=counts, m=[]))      # arbitrary precision: 32-bit rationals overflow from N ~ 14 on
         vals = [f"v{i}" for i, c in enumerate(counts) for _ in range(c)]
         ctx.rng.shuffle(vals)
         tabs[sid] = (counts, pd.DataFrame(dict(CDR3B=vals, extra=["x"] * len(vals))))
@@ -216,13 +216,13 @@ def std_entropy_part(ctx, n):
         except Exception as e:     # noqa: BLE001
             ctx.violation(f"stdrenyi2_entropy/raised:{type(e).__name__}", f"stdrenyi2_entropy(counts {counts}) raised {e}"[:300], dict(kind="std", counts=counts))
             continue
-        pc = spec["pc"][0] / spec["pc"][1]
-        var = spec["var"][0] / spec["var"][1]
+        pc = float(estim.big_fraction(spec["pc"]))
+        var = float(estim.big_fraction(spec["var"]))
         if var <= 1e-15 or pc == 0:
             continue            # square root of a non-positive estimate: not judged (float noise / nan)
         want = math.sqrt(var) / (pc * math.log(base))
         if not (abs(got - want) <= 1e-8 * max(1.0, abs(want))):
-            ctx.violation("stdrenyi2_entropy/wrong_value", f"stdrenyi2_entropy(counts {counts}, base={base}) = {got} want sqrt({spec['var']})/({spec['pc']} ln base) = {want}",
+            ctx.violation("stdrenyi2_entropy/wrong_value", f"stdrenyi2_entropy(counts {counts}, base={base}) = {got} want sqrt({var})/({pc} ln base) = {want}",
                           dict(kind="std", counts=counts))
 
 
@@ -241,7 +241,7 @@ def run(ctx):
     for name, text in runs:
         res = results[name]
         docs = []
-        for doc in ctx.sample([d for d in res.printed if "fn" in d], 60000):
+        for doc in ctx.sample([d for d in res.printed if "fn" in d], 25000):
             n += 1
             if ctx.quick and n % {"cond": 2, "cond3": 6, "cross": 2, "delta": 4, "many": 6}.get(name, 3):
                 continue
